@@ -318,4 +318,98 @@ def freeLeafS (s : State) (r : Nat) : State :=
       | _ => s
     (detach s1 r).remove r
 
+
+theorem freeLeafS_get {s : State} {r : Nat} {rb : Obj} (w : WFp s) (hr : s.get r = some rb)
+    (hk : rb.kind ≠ .plain) (j : Nat) : (freeLeafS s r).get j = eraseAll s r j := by
+  have ⟨h1, h2, h3, h4, h5, h6, h7, h8, h9, h10⟩ := w
+  have hnc : ∀ (y : Nat) yo, s.get y = some yo → r ∈ yo.children → rb.parent = some y := by
+    intro y yo hy hm
+    obtain ⟨co, hco, hcp, -⟩ := h2 y yo r hy hm
+    rw [hr] at hco; cases hco; exact hcp
+  have hnf : ∀ (y : Nat) yo, s.get y = some yo → r ∈ yo.refs → rb.kind = .ref y := by
+    intro y yo hy hm
+    obtain ⟨ro, hro, hrk⟩ := h4 y yo r hy hm
+    rw [hr] at hro; cases hro; exact hrk
+  have hec : ∀ (y : Nat) yo, s.get y = some yo → rb.parent ≠ some y → yo.children.erase r = yo.children :=
+    fun y yo hy hne => List.erase_of_not_mem (fun hm => hne (hnc y yo hy hm))
+  have her : ∀ (y : Nat) yo, s.get y = some yo → rb.kind ≠ .ref y → yo.refs.erase r = yo.refs :=
+    fun y yo hy hne => List.erase_of_not_mem (fun hm => hne (hnf y yo hy hm))
+  unfold freeLeafS eraseAll
+  simp only [hr]
+  by_cases hjr : j = r
+  · simp [hjr]
+  simp only [hjr, if_false]
+  cases hkind : rb.kind with
+  | plain => exact absurd hkind hk
+  | limit =>
+    simp only []
+    have her' : ∀ (y : Nat) yo, s.get y = some yo → yo.refs.erase r = yo.refs :=
+      fun y yo hy => her y yo hy (by rw [hkind]; simp)
+    cases hpar : rb.parent with
+    | none =>
+      rw [detach_eq_none hr hpar, get_remove]
+      simp only [Ne.symm hjr, if_false]
+      cases hj : s.get j with
+      | none => rfl
+      | some jo =>
+        simp only [Option.map_some]
+        rw [her' j jo hj, hec j jo hj (by rw [hpar]; simp)]
+    | some p =>
+      rw [detach_eq_some hr hpar, get_remove, get_modify]
+      simp only [Ne.symm hjr, if_false]
+      cases hj : s.get j with
+      | none => simp
+      | some jo =>
+        by_cases hpj : p = j
+        · subst hpj; simp [her' _ jo hj]
+        · simp only [hpj, if_false, Option.map_some]
+          rw [her' j jo hj, hec j jo hj (by rw [hpar]; simpa using hpj)]
+  | ref t =>
+    simp only []
+    have htr : t ≠ r := by
+      intro e
+      obtain ⟨tb, htb, hm⟩ := h6 r rb t hr hkind
+      rw [e, hr] at htb; cases htb
+      rw [(h7 r rb hr hk).2.1] at hm; cases hm
+    have hr1 : (s.modify t fun x => { x with refs := x.refs.erase r }).get r = some rb := by
+      rw [get_modify]; simp [htr, hr]
+    cases hpar : rb.parent with
+    | none =>
+      rw [detach_eq_none hr1 hpar, get_remove, get_modify]
+      simp only [Ne.symm hjr, if_false]
+      cases hj : s.get j with
+      | none => simp
+      | some jo =>
+        have e1 := hec j jo hj (by rw [hpar]; simp)
+        by_cases htj : t = j
+        · subst htj; simp [e1]
+        · simp only [htj, if_false, Option.map_some]
+          rw [e1, her j jo hj (by rw [hkind]; simpa using htj)]
+    | some p =>
+      rw [detach_eq_some hr1 hpar, get_remove, get_modify, get_modify]
+      simp only [Ne.symm hjr, if_false]
+      cases hj : s.get j with
+      | none => simp
+      | some jo =>
+        by_cases htj : t = j <;> by_cases hpj : p = j
+        · subst htj; subst hpj; simp
+        · subst htj; simp [hpj, hec _ jo hj (by rw [hpar]; simpa using hpj)]
+        · subst hpj; simp [htj, her _ jo hj (by rw [hkind]; simpa using htj)]
+        · simp only [htj, hpj, if_false, Option.map_some]
+          rw [hec j jo hj (by rw [hpar]; simpa using hpj), her j jo hj (by rw [hkind]; simpa using htj)]
+
+theorem nullCtx_freeLeafS (s : State) (r : Nat) : (freeLeafS s r).nullCtx = s.nullCtx := by
+  unfold freeLeafS
+  split
+  · rfl
+  · simp only [nullCtx_remove, nullCtx_detach]; split <;> simp
+
+theorem freeLeafS_wf {s : State} {r : Nat} {rb : Obj} (w : WFp s) (hr : s.get r = some rb)
+    (hk : rb.kind ≠ .plain) : WFp (freeLeafS s r) :=
+  eraseAll_wf w hr hk (nullCtx_freeLeafS s r) (freeLeafS_get w hr hk)
+
+theorem freeLeafS_ranked {rk : Nat → Nat} {s : State} {r : Nat} {rb : Obj} (w : WFp s)
+    (hr : s.get r = some rb) (hk : rb.kind ≠ .plain) (wr : Ranked rk s) : Ranked rk (freeLeafS s r) :=
+  eraseAll_ranked wr (nullCtx_freeLeafS s r) (freeLeafS_get w hr hk)
+
 end Usual.C01
